@@ -2,6 +2,7 @@ package engine
 
 import (
 	"fmt"
+	"strings"
 	"sort"
 	"go/token"
 	"go/types"
@@ -58,7 +59,7 @@ func (fr *frame) call(cc *ssa.CallCommon, st *State, site ssa.Value, pos token.P
 		return fr.builtin(b, cc, args, st, site, pos)
 	}
 	name := calleeName(cc)
-	fr.atCall(name, st, pos)
+	fr.atCall(name, st, pos, cc, args)
 	fr.noteCall(name, st)
 	if cc.IsInvoke() {
 		recv := fr.val(cc.Value)
@@ -302,44 +303,70 @@ func (fr *frame) doAppend(cc *ssa.CallCommon, args []T, st *State) T {
 	arr := c.name("app_arr", Ite(inplace, SArr(s), r))
 	off := c.name("app_off", Ite(inplace, SOff(s), IntLit(0)))
 	res := MkSlice(arr, off, add(SLen(s), n), Ite(inplace, SCap(s), newcap))
-	if _, isStruct := under(et).(*types.Struct); isStruct || t.Sort == "Str" {
-		// element-wise model not generated for struct elements: havoc the cells
-		if isStruct {
-			si := c.R.structOf(et)
-			for _, f := range si.Fields {
-				if _, nested := under(f.Typ).(*types.Struct); nested {
-					c.havocAll(st)
-					return c.name("app", res)
-				}
-				c.havocHeap(st, c.R.CellHeap(f.Sort))
-			}
-		} else {
-			c.havocHeap(st, c.R.CellHeap("Int"))
-		}
-		return c.name("app", res)
-	}
-	es := c.R.SortOf(et)
-	hn := c.R.CellHeap(es)
-	h := c.getHeap(st, hn)
 	resN := c.name("app", res)
-	// prefix copy when a new array is allocated: r is fresh, so its cells in
-	// the current heap are unobservable garbage; we pick the garbage to be the
-	// copied prefix (same device as zero-initialisation in MakeSlice).
-	c.emit("(assert (=> (and %s (not %s)) (forall ((j Int)) (! (=> (and (<= 0 j) (< j %s)) (= (select %s (selem %s j)) (select %s (selem %s j)))) :pattern ((select %s (selem %s j)))))))",
-		st.pc.S, inplace.S, SLen(s).S, h.S, resN.S, h.S, s.S, h.S, resN.S)
-	if isConst {
-		cur := h
-		for j := int64(0); j < constN; j++ {
-			ev := Select(h, Elem(t, IntLit(j)))
-			cur = Store(cur, Elem(resN, add(SLen(s), IntLit(j))), ev)
+	base := c.name("app_base", add(off, SLen(s)))
+	// leaf cells of one element: field-id paths below the element address
+	type leaf struct {
+		path []int
+		typ  types.Type
+	}
+	var leaves []leaf
+	var walk func(t types.Type, path []int)
+	walk = func(t types.Type, path []int) {
+		if st, ok := under(t).(*types.Struct); ok {
+			for i := 0; i < st.NumFields(); i++ {
+				walk(st.Field(i).Type(), append(append([]int(nil), path...), c.R.FieldID(t, i)))
+			}
+			return
 		}
-		c.setHeap(st, hn, cur)
-	} else {
+		leaves = append(leaves, leaf{append([]int(nil), path...), t})
+	}
+	walk(et, nil)
+	addrOf := func(elem T, path []int) T {
+		a := elem
+		for _, f := range path {
+			a = Fld(a, f)
+		}
+		return a
+	}
+	for _, lf := range leaves {
+		if _, isArr := under(lf.typ).(*types.Array); isArr {
+			c.havocAll(st)
+			return resN
+		}
+		hn := c.R.CellHeap(c.R.SortOf(lf.typ))
+		h := c.getHeap(st, hn)
+		jv := T{"j", "Int"}
+		// prefix copy when a new array is allocated: r is fresh, so its cells in
+		// the current heap are unobservable garbage; we pick the garbage to be the
+		// copied prefix (same device as zero-initialisation in MakeSlice).
+		dst, src := addrOf(Elem(resN, jv), lf.path), addrOf(Elem(s, jv), lf.path)
+		c.emit("(assert (=> (and %s (not %s)) (forall ((j Int)) (! (=> (and (<= 0 j) (< j %s)) (= (select %s %s) (select %s %s))) :pattern ((select %s %s))))))",
+			st.pc.S, inplace.S, SLen(s).S, h.S, dst.S, h.S, src.S, h.S, dst.S)
+		if isConst && t.Sort != "Str" {
+			cur := h
+			for j := int64(0); j < constN; j++ {
+				ev := Select(h, addrOf(Elem(t, IntLit(j)), lf.path))
+				cur = Store(cur, addrOf(Elem(resN, add(SLen(s), IntLit(j))), lf.path), ev)
+			}
+			c.setHeap(st, hn, cur)
+			continue
+		}
+		// dynamic count: havoc the cells [base, base+n) of the result array
 		h2 := c.fresh(hn, h.Sort)
-		c.emit("(assert (forall ((a Ref)) (! (= (select %s a) (ite (and ((_ is ridx) a) (= (rarr a) %s) (<= %s (riidx a)) (< (riidx a) (+ %s %s))) (select %s (selem %s (- (riidx a) %s))) (select %s a))) :pattern ((select %s a)))))",
-			h2.S, arr.S, add(off, SLen(s)).S, add(off, SLen(s)).S, n.S, h.S, t.S, add(off, SLen(s)).S, h.S, h2.S)
-		c.emit("(assert (forall ((j Int)) (! (=> (and (<= 0 j) (< j %s)) (= (select %s (selem %s (+ %s j))) (select %s (selem %s j)))) :pattern ((select %s (selem %s j))))))",
-			n.S, h2.S, resN.S, SLen(s).S, h.S, t.S, h.S, t.S)
+		cur := "a"
+		var conds []string
+		for i := len(lf.path) - 1; i >= 0; i-- {
+			conds = append(conds, fmt.Sprintf("((_ is rfld) %s) (= (rfid %s) %d)", cur, cur, lf.path[i]))
+			cur = "(rbase " + cur + ")"
+		}
+		conds = append(conds, fmt.Sprintf("((_ is ridx) %s) (= (rarr %s) %s) (<= %s (riidx %s)) (< (riidx %s) (+ %s %s))", cur, cur, arr.S, base.S, cur, cur, base.S, n.S))
+		c.emit("(assert (forall ((a Ref)) (! (=> (not (and %s)) (= (select %s a) (select %s a))) :pattern ((select %s a)))))", strings.Join(conds, " "), h2.S, h.S, h2.S)
+		if t.Sort != "Str" {
+			d2, s2 := addrOf(Elem(resN, app("Int", "+", SLen(s), jv)), lf.path), addrOf(Elem(t, jv), lf.path)
+			c.emit("(assert (forall ((j Int)) (! (=> (and (<= 0 j) (< j %s)) (= (select %s %s) (select %s %s))) :pattern ((select %s %s)))))",
+				n.S, h2.S, d2.S, h.S, s2.S, h.S, s2.S)
+		}
 		c.setHeap(st, hn, h2)
 	}
 	return resN
@@ -351,7 +378,7 @@ func (fr *frame) noteCall(name string, st *State) {
 }
 
 // atCall checks the `at call F requires e` clauses of the top-level contract.
-func (fr *frame) atCall(name string, st *State, pos token.Pos) {
+func (fr *frame) atCall(name string, st *State, pos token.Pos, cc *ssa.CallCommon, args []T) {
 	c := fr.c
 	if c.topFrame == nil || c.topFrame.contract == nil {
 		return
@@ -361,6 +388,13 @@ func (fr *frame) atCall(name string, st *State, pos token.Pos) {
 		return
 	}
 	env := c.topFrame.env(st)
+	// the call's arguments are visible as arg0, arg1, ... (receiver first for
+	// static method calls)
+	for i, a := range args {
+		if i < len(cc.Args) {
+			env.vars[fmt.Sprintf("arg%d", i)] = cval{t: a, typ: cc.Args[i].Type()}
+		}
+	}
 	for _, cl := range cls {
 		t, err := env.Bool(cl.Expr)
 		if err != nil {
@@ -398,6 +432,16 @@ func (fr *frame) iteratorCall(ct *Contract, cc *ssa.CallCommon, args []T, st *St
 	if c.scan {
 		c.loopWrites[key] = map[string]bool{}
 	} else {
+		snaps := c.snapshotStable(st, func(sc *stableCell) bool {
+			for _, in := range sc.stores {
+				for f := in.Parent(); f != nil; f = f.Parent() {
+					if f == clo.fn {
+						return false
+					}
+				}
+			}
+			return true
+		})
 		if c.loopAll[key] {
 			c.havocAll(st)
 		} else {
@@ -420,6 +464,7 @@ func (fr *frame) iteratorCall(ct *Contract, cc *ssa.CallCommon, args []T, st *St
 				c.havocHeap(st, n)
 			}
 		}
+		c.restoreStable(st, snaps)
 		for _, fc := range c.topFrameConds(st) {
 			c.assume(st, fc.cond)
 		}
